@@ -169,6 +169,12 @@ func runHistory(profile string, seed int64, nops int, path string) map[string]in
 			g.Observe(o, res)
 			done++
 		}
+		for profile != "mint" && g.HasPending() && done < nops+8 { // a burst is finished inside its block
+			o := g.NextTx()
+			res := step(c, h, o, mon)
+			g.Observe(o, res)
+			done++
+		}
 		o = Op{Kind: "END"}
 		res = step(c, h, o, mon)
 		g.Observe(o, res)
